@@ -86,6 +86,9 @@ def expected_gap(n, values, known_masks, comp, gapname):
     return ref_gap_float(gapname, n, lo.tolist(), up.tolist())
 
 
+rng_meta = random.Random(12345)
+
+
 def search_case(ctx, case, logpath) -> None:
     n, values, comp, gapname, start, k = case["n"], case["values"], case["computer"], case["gap"], case["start"], case["k"]
     full = sut.full_game(values)
@@ -165,7 +168,11 @@ def search_case(ctx, case, logpath) -> None:
         inc = sut.new_game(n, BOUNDS[comp])
         mg = MetaGame(full, inc, GAP_FUNCTIONS[gapname])
         players = [c.id for c in mg.players]
-        for s in want_sets[:: max(1, len(want_sets) // 40)]:
+        queries = want_sets[:: max(1, len(want_sets) // 40)]
+        queries = queries + [[]] + queries[:3][::-1] + [[]]          # the SAME object is asked again, the empty set after non-empty ones
+        if rng_meta.random() < 0.5:
+            rng_meta.shuffle(queries)
+        for s in queries:
             mc = Coalition.from_players([players.index(m) for m in s])
             got = float(mg.get_value(mc))
             ctx.count("metagame_values")
